@@ -1,9 +1,226 @@
 import Driver.Util
-/-! driver ops of C09 (prefix `c09.`); filled in by the C09 work -/
+import Model.Tokenizer
+import Model.ZoneFile
+/-! driver ops of C09 (prefix `c09.`): tokenizer scripts, TTL / range / int parsing, zone reading and writing.
+Text travels as hex of code points < 256 (`-` = empty). -/
 namespace Driver
 open Model
 
+def showOptText : Option (List Nat) → String
+  | some c => toHexP c
+  | none => "~"
+
+def showToken (t : Token) : String :=
+  s!"T{t.ttype.code}:{toHexP t.value}:{if t.hasEscape then 1 else 0}:{showOptText t.comment}"
+
+def parseFlags (f : String) : Option (Bool × Bool) :=
+  match f.toList with
+  | [a, b] => do
+    let a ← parseBool (String.singleton a)
+    let b ← parseBool (String.singleton b)
+    some (a, b)
+  | _ => none
+
+/-- run a script of tokenizer operations; stops at the first error -/
+partial def tokScript (s : TState) (last : Option Token) (ops : List String) (out : List String) : List String :=
+  match ops with
+  | [] => out
+  | op :: rest =>
+    if op = "u" then
+      match last with
+      | none => out ++ ["noop"]
+      | some t =>
+        match s.unget t with
+        | .ok s' => tokScript s' last rest (out ++ ["U"])
+        | .error e => out ++ ["E" ++ e.toString]
+    else if op.startsWith "g" then
+      match parseFlags (op.drop 1).toString with
+      | none => out ++ ["bad"]
+      | some (wl, wc) =>
+        match s.get wl wc with
+        | .ok (t, s') => tokScript s' (some t) rest (out ++ [showToken t])
+        | .error e => out ++ ["E" ++ e.toString]
+    else if op.startsWith "a" then
+      match parseFlags (op.drop 1).toString with
+      | none => out ++ ["bad"]
+      | some (wl, wc) =>
+        let rec loop (fuel : Nat) (s : TState) (last : Option Token) (out : List String) :
+            TState × Option Token × List String × Bool :=
+          match fuel with
+          | 0 => (s, last, out, true)
+          | fuel + 1 =>
+            match s.get wl wc with
+            | .ok (t, s') =>
+              if t.ttype = .eof then (s', some t, out ++ [showToken t], true)
+              else loop fuel s' (some t) (out ++ [showToken t])
+            | .error e => (s, last, out ++ ["E" ++ e.toString], false)
+        let (s', last', out', ok) := loop (s.input.length + 3) s last out
+        if ok then tokScript s' last' rest out' else out'
+    else if op = "ws" then
+      let r := skipWs (decide (s.multiline > 0)) s.input
+      tokScript { s with input := r.2 } last rest (out ++ [s!"W{r.1}"])
+    else out ++ ["bad"]
+
+def showTokE (r : Except TokErr (List Nat)) : String :=
+  match r with
+  | .ok v => "ok " ++ toHexP v
+  | .error e => "err " ++ e.toString
+
+def showRd : Rdata → String
+  | .a b => "a" ++ toHexP b
+  | .name1 n => "n" ++ showName n
+  | .mx p n => s!"m{p}_{showName n}"
+  | .txt ss => "t" ++ "_".intercalate (ss.map toHexP)
+  | .soa m r a b c d e => s!"s{showName m}_{showName r}_{a}_{b}_{c}_{d}_{e}"
+  | .generic d => "g" ++ toHexP d
+
+def showRR (rr : RR) : String := showRd rr.rd ++ "#" ++ showOptText rr.comment
+
+def showRdataset (r : Rdataset) : String :=
+  s!"{r.rdtype}.{r.ttl}." ++ "&".intercalate (r.rrs.map showRR)
+
+def showNode (p : Name × Node) : String :=
+  showName p.1 ++ "=" ++ "+".intercalate (p.2.map showRdataset)
+
+def showZone (z : ZoneMap) : String :=
+  if z.isEmpty then "empty" else "/".intercalate (z.map showNode)
+
+def parseOptText (s : String) : Option (Option (List Nat)) :=
+  if s = "~" then some none else (ofHex s).map some
+
+def parseRd (s : String) : Option Rdata :=
+  match s.toList with
+  | [] => none
+  | k :: rest =>
+    let body := String.ofList rest
+    let parts := splitOnChar body '_'
+    if k = 'a' then (ofHex body).map .a
+    else if k = 'n' then (parseName body).map .name1
+    else if k = 'm' then
+      match parts with
+      | [p, n] => do
+        let p ← p.toNat?
+        let n ← parseName n
+        some (.mx p n)
+      | _ => none
+    else if k = 't' then (parts.mapM ofHex).map .txt
+    else if k = 's' then
+      match parts with
+      | [m, r, a, b, c, d, e] => do
+        let m ← parseName m; let r ← parseName r
+        let a ← a.toNat?; let b ← b.toNat?; let c ← c.toNat?; let d ← d.toNat?; let e ← e.toNat?
+        some (.soa m r a b c d e)
+      | _ => none
+    else if k = 'g' then (ofHex body).map .generic
+    else none
+
+def parseRR (s : String) : Option RR :=
+  match splitOnChar s '#' with
+  | [rd, c] => do
+    let rd ← parseRd rd
+    let c ← parseOptText c
+    some ⟨rd, c⟩
+  | _ => none
+
+def parseRdataset (s : String) : Option Rdataset :=
+  match splitOnChar s '.' with
+  | [ty, ttl, rrs] => do
+    let ty ← ty.toNat?
+    let ttl ← ttl.toNat?
+    let rrs ← if rrs = "" then some [] else (splitOnChar rrs '&').mapM parseRR
+    some ⟨ty, ttl, rrs⟩
+  | _ => none
+
+def parseNode (s : String) : Option (Name × Node) :=
+  match splitOnChar s '=' with
+  | [n, rds] => do
+    let n ← parseName n
+    let rds ← if rds = "" then some [] else (splitOnChar rds '+').mapM parseRdataset
+    some (n, rds)
+  | _ => none
+
+def parseZone (s : String) : Option ZoneMap :=
+  if s = "empty" then some [] else (splitOnChar s '/').mapM parseNode
+
+def parseIntS (s : String) : Option Int :=
+  if s.startsWith "-" then (s.drop 1).toString.toNat?.map (fun n => - (n : Int)) else s.toNat?.map (fun n => (n : Int))
+
+def parseOptNat (s : String) : Option (Option Nat) :=
+  if s = "none" then some none else s.toNat?.map some
+
+/-- style tokens `key=value`; unknown keys are an error -/
+def parseStyle (toks : List String) : Option Style :=
+  toks.foldlM (init := ({} : Style)) fun st tok =>
+    match splitOnChar tok '=' with
+    | [k, v] =>
+      if k = "sorted" then (parseBool v).map fun b => { st with sorted := b }
+      else if k = "wo" then (parseBool v).map fun b => { st with wantOrigin := b }
+      else if k = "dttl" then (parseOptNat v).map fun b => { st with defaultTTL := b }
+      else if k = "dedup" then (parseBool v).map fun b => { st with dedup := b }
+      else if k = "fnd" then (parseBool v).map fun b => { st with firstNameIsDuplicate := b }
+      else if k = "nj" then (parseIntS v).map fun b => { st with nameJust := b }
+      else if k = "tj" then (parseIntS v).map fun b => { st with ttlJust := b }
+      else if k = "cj" then (parseIntS v).map fun b => { st with classJust := b }
+      else if k = "yj" then (parseIntS v).map fun b => { st with typeJust := b }
+      else if k = "gen" then (parseBool v).map fun b => { st with wantGeneric := b }
+      else if k = "com" then (parseBool v).map fun b => { st with wantComments := b }
+      else if k = "oc" then (parseBool v).map fun b => { st with omitClass := b }
+      else if k = "ot" then (parseBool v).map fun b => { st with omitTTL := b }
+      else if k = "so" then (parseOptName v).map fun b => { st with origin := b }
+      else if k = "sr" then (parseBool v).map fun b => { st with relativize := b }
+      else if k = "hc" then v.toNat?.map fun b => { st with hexChunk := b }
+      else if k = "hs" then (ofHex v).map fun b => { st with hexSep := b }
+      else none
+    | _ => none
+
+def showReadResult (r : RM (ZoneMap × Option Name)) : String :=
+  match r with
+  | .ok (z, o) => s!"ok origin={match o with | some n => showName n | none => "none"} {showZone z}"
+  | .error e => "err " ++ e.toString
+
 def handleC09 : List String → Option String
+  | "c09.tok" :: text :: ops => do
+    let t ← ofHex text
+    some (" ".intercalate (tokScript (TState.init t) none ops []))
+  | ["c09.unesc", text] => do
+    let t ← ofHex text
+    match (TState.init t).get with
+    | .error e => some ("err " ++ e.toString)
+    | .ok (tk, _) =>
+      some (showTokE (tk.unescape.map (·.value)) ++ " | " ++ showTokE (tk.unescapeToBytes.map (·.value)))
+  | ["c09.ttl", text] => do
+    let t ← ofHex text
+    some (match ttlFromText t with
+      | .ok v => s!"ok {v}"
+      | .error e => "err " ++ e.toString)
+  | ["c09.grange", text] => do
+    let t ← ofHex text
+    some (match grangeFromText t with
+      | .ok (a, b, c) => s!"ok {a} {b} {c}"
+      | .error e => "err " ++ e.toString)
+  | ["c09.int", text] => do
+    let t ← ofHex text
+    some (match pyInt t with
+      | some v => s!"ok {v}"
+      | none => "err ValueError")
+  | ["c09.modify", text] => do
+    let t ← ofHex text
+    some (match parseModify t with
+      | some m => s!"ok {toHexP m.mod} {m.sign} {m.offset} {m.width} {m.base}"
+      | none => "err SyntaxError")
+  | ["c09.read", origin, rel, chk, text] => do
+    let o ← parseOptName origin
+    let rel ← parseBool rel
+    let chk ← parseBool chk
+    let t ← ofHex text
+    some (showReadResult (zoneFromText t o rel chk))
+  | "c09.write" :: origin :: zone :: style => do
+    let o ← parseOptName origin
+    let z ← parseZone zone
+    let st ← parseStyle style
+    some (match zoneToText st o z with
+      | .ok t => "ok " ++ toHexP t
+      | .error e => "err " ++ e.toString)
   | _ => none
 
 end Driver
